@@ -39,6 +39,9 @@ site: http://bugseng.com/products/ppl/ . */
 #include <sstream>
 #include <stdexcept>
 #include <algorithm>
+#ifdef BUGSENG_PPL_VERIF
+#include "verif_hooks.hh"
+#endif
 
 namespace Parma_Polyhedra_Library {
 
@@ -2547,6 +2550,9 @@ Octagonal_Shape<T>::relation_with(const Generator& g) const {
 template <typename T>
 void
 Octagonal_Shape<T>::strong_closure_assign() const {
+#ifdef BUGSENG_PPL_VERIF
+  PPL_VERIF_REACH(OCT_CLOSURE);
+#endif
   // Do something only if necessary (zero-dim implies strong closure).
   if (marked_empty() || marked_strongly_closed() || space_dim == 0) {
     return;
@@ -2779,6 +2785,9 @@ template <typename T>
 void
 Octagonal_Shape<T>
 ::incremental_strong_closure_assign(const Variable var) const {
+#ifdef BUGSENG_PPL_VERIF
+  PPL_VERIF_REACH(OCT_INCR_CLOSURE);
+#endif
   // `var' should be one of the dimensions of the octagon.
   if (var.id() >= space_dim) {
     throw_dimension_incompatible("incremental_strong_closure_assign(v)",
@@ -3019,6 +3028,9 @@ Octagonal_Shape<T>
 template <typename T>
 void
 Octagonal_Shape<T>::strong_reduction_assign() const {
+#ifdef BUGSENG_PPL_VERIF
+  PPL_VERIF_REACH(OCT_REDUCTION);
+#endif
   // Zero-dimensional octagonal shapes are necessarily reduced.
   if (space_dim == 0) {
     return;
